@@ -32,3 +32,12 @@ pub use resource_quota::*;
 pub use system_hardware::*;
 
 pub mod pal;
+
+// Verification hook (H3): harness code lives outside the repository and is only compiled by the
+// model checker (`cfg(kani)`) or by native counterexample replays (`--cfg folo_verif`).
+#[cfg(all(any(kani, folo_verif), target_os = "linux", not(miri)))]
+#[doc(hidden)]
+#[allow(warnings, clippy::all, clippy::pedantic, clippy::nursery, clippy::restriction)]
+pub mod folo_verif {
+    pub use crate::pal::folo_verif_cpu_mask::*;
+}
